@@ -25,6 +25,7 @@ struct CallSpec
     std::string bytes;  // input (for E_WRITE: sink name)
     Sched sched;
     int64_t alloc_fail_at{-1};
+    int64_t sink_fail_after{-1};  // B_PRETTY: the output stream fails (throws std::ios_base::failure) after that many bytes; -1 = never
     uint64_t ceiling{0};
     int errno_before{0};
     bool is_xml() const { return entry == E_XML_BUFFER || entry == E_XML_FILE || entry == E_XML_FD; }
@@ -39,7 +40,8 @@ struct CallResult
     std::string exc_what;
     long ret{0};
     OpCtx ctx;  // what the seams counted during the call
-    bool env_faulted() const { return ctx.fail_fired || ctx.io_fault_fired != IO_NONE; }
+    bool sink_fault_fired{false};
+    bool env_faulted() const { return ctx.fail_fired || ctx.io_fault_fired != IO_NONE || sink_fault_fired; }
     std::string pretty_out;  // B_PRETTY
 };
 
